@@ -253,6 +253,10 @@ func ScalarNode(v *Val) (datamodel.Node, error) {
 	return nil, fmt.Errorf("not a scalar")
 }
 
+// AllUint makes Assemble hand every non-negative integer over as a basicnode UintNode (the data model
+// value is the same; the node implementation differs).
+var AllUint bool
+
 // Assemble feeds v into any NodeAssembler using the plainest call sequence
 // (BeginMap/AssembleEntry/Finish, Assign* for scalars).
 func Assemble(na datamodel.NodeAssembler, v *Val) error {
@@ -262,7 +266,7 @@ func Assemble(na datamodel.NodeAssembler, v *Val) error {
 	case KBool:
 		return na.AssignBool(v.B)
 	case KInt:
-		if v.I.Cmp(two63) >= 0 {
+		if v.I.Cmp(two63) >= 0 || (AllUint && v.I.Sign() >= 0) {
 			return na.AssignNode(basicnode.NewUint(v.I.Uint64()))
 		}
 		return na.AssignInt(v.I.Int64())
